@@ -55,11 +55,6 @@ def gen(seed, tier):
         if r.random() < 0.5:
             fine = {'p': r.choice((0.05, 0.3)),
                     'prefix': seams.repo_src() + '/ZODB'}
-            if r.random() < 0.4:
-                # between bytecode instructions, inside the functions that
-                # touch the id counter
-                fine = {'p': r.choice((0.02, 0.1)), 'opcodes': True,
-                        'prefix': seams.repo_src() + '/ZODB'}
         scripts = [[r.choice(('oid', 'oid', 'oid', 'store'))
                     for _ in range(r.randint(2, 8))]
                    for _ in range(r.choice((2, 3, 4)))]
